@@ -26,6 +26,8 @@ type DestCfg struct {
 	Reply       string `json:"reply,omitempty"`
 	ReplyAt     int    `json:"reply_at,omitempty"`
 	TeardownErr string `json:"teardown_err,omitempty"`
+	// FaultRuns: open / write faults apply only to the first FaultRuns runs (0 = always)
+	FaultRuns int `json:"fault_runs,omitempty"`
 	// Chunk: in free-running mode answer in chunks of this many acks (0 = whole request at once)
 	Chunk int `json:"chunk,omitempty"`
 }
@@ -41,17 +43,18 @@ type Dest struct {
 	Cfg   DestCfg
 	IsDLQ bool
 
-	mu      sync.Mutex
-	cond    *sync.Cond
-	run     int
-	pending []pendingRec // written, not yet answered (write order)
-	grants  []grant      // driver-released answers not yet sent
-	written int
-	replies int
-	running bool
-	opens   int
-	tears   int
-	st      *dstStream
+	mu       sync.Mutex
+	cond     *sync.Cond
+	run      int
+	pending  []pendingRec // written, not yet answered (write order)
+	grants   []grant      // driver-released answers not yet sent
+	written  int
+	replies  int
+	running  bool
+	opens    int
+	attempts int
+	tears    int
+	st       *dstStream
 }
 
 type grant struct {
@@ -84,12 +87,16 @@ func (d *Dest) Open(context.Context, pconnector.DestinationOpenRequest) (pconnec
 	if d.IsDLQ {
 		kind = "dlq"
 	}
-	if d.Cfg.OpenErr != "" {
+	if d.Cfg.OpenErr != "" && (d.Cfg.FaultRuns == 0 || d.attempts < d.Cfg.FaultRuns) {
+		d.attempts++
+		d.W.Log.Add("Fault", "what", "open-err", "conn", d.Cfg.ID, "err", d.Cfg.OpenErr)
 		d.W.Log.Add("Open", "conn", d.Cfg.ID, "key", d.Cfg.ID, "kind", kind, "ok", false)
 		return pconnector.DestinationOpenResponse{}, toErr(d.Cfg.OpenErr)
 	}
 	d.run++
 	d.opens++
+	d.attempts++
+	d.written = 0
 	d.pending = nil
 	d.grants = nil
 	d.W.Log.Add("Open", "conn", d.Cfg.ID, "key", d.Cfg.ID, "kind", kind, "ok", true, "run", d.run)
@@ -177,7 +184,7 @@ func (d *Dest) onWrite(req pconnector.DestinationRunRequest, st *dstStream, run 
 		kv := append(append([]any{"conn", d.Cfg.ID, "run", run}, TagKV(tag)...), extra...)
 		d.W.Log.Add(d.ev("Write"), kv...) // engine -> env output: logged at receipt
 		d.pending = append(d.pending, pendingRec{tag: tag, pos: r.Position})
-		if d.Cfg.WriteErrAt > 0 && d.written == d.Cfg.WriteErrAt {
+		if d.Cfg.WriteErrAt > 0 && d.written == d.Cfg.WriteErrAt && (d.Cfg.FaultRuns == 0 || run <= d.Cfg.FaultRuns) {
 			fail = true
 		}
 	}
